@@ -73,7 +73,8 @@ def numeric (c : Codec α) (smooth : Option (α → α → α → α)) (logsum :
     let v := vecOf (vs.getD 1 [])
     let lens := vs.map List.length
     let post := postorder n t
-    let b := bounds n s post
+    -- `_bounds` is computed once and stored, as in the implementation
+    let b := vecOf ((List.range (2 * n - 1)).map (bounds n s post))
     let okS := lens.getD 0 0 == n
     let okV := lens.getD 1 0 == n - 1
     let mx : Option (α → α → α) := match k, smooth with
